@@ -280,22 +280,52 @@ def r12_python(chk):
             chk.ob('R12.3', okd, ASSEMBLY, fname, 'SB offset dsb', expected='(h1 + h2)/2', got=norm(d))
     pyrules.check_finalize_path(chk, 'R12.3', ASSEMBLY, 'PanelAssembly', 'get_k0_conn', 'k0_conn')
     # triangle rule: the full 12 block is placed at (p1.row_start, p2.col_start) and then passes
-    # through make_symmetric, which keeps col >= row only: needs p1.row_start <= p2.col_start.
-    guard = False
-    for n in ast.walk(fn):
-        if isinstance(n, (ast.If, ast.Assert)):
-            t = norm(n.test)
-            if 'p1.row_start' in t and 'p2' in t and ('<' in t or '>' in t):
-                guard = True
-        if isinstance(n, ast.Assign) and isinstance(n.targets[0], ast.Tuple) and norm(n.targets[0]) in ('(p1,p2)', '(p2,p1)'):
-            guard = True
+    # through make_symmetric, which keeps col >= row only. Accepted: the value of the 12 call goes
+    # through a transposition that is taken exactly when p1 lies after p2 (inline conditional
+    # expression, or a local helper whose body is that conditional expression).
+    helpers = {n.name: n for n in fn.body if isinstance(n, ast.FunctionDef)}
+
+    def transposes_when_after(expr, k, a, b):
+        """expr == `k.T if a.row_start > b.col_start else k` (or the mirrored form)"""
+        if not isinstance(expr, ast.IfExp) or not isinstance(expr.test, ast.Compare) or len(expr.test.ops) != 1:
+            return False
+        l, r, op = norm(expr.test.left), norm(expr.test.comparators[0]), expr.test.ops[0]
+        after = (l == a + '.row_start' and r in (b + '.col_start', b + '.row_start') and isinstance(op, (ast.Gt, ast.GtE))) or \
+                (r == a + '.row_start' and l in (b + '.col_start', b + '.row_start') and isinstance(op, (ast.Lt, ast.LtE)))
+        before = (l == a + '.row_start' and r in (b + '.col_start', b + '.row_start') and isinstance(op, (ast.Lt, ast.LtE))) or \
+                 (r == a + '.row_start' and l in (b + '.col_start', b + '.row_start') and isinstance(op, (ast.Gt, ast.GtE)))
+        body, orelse = norm(expr.body), norm(expr.orelse)
+        if after:
+            return body in (k + '.T', k + '.transpose()') and orelse == k
+        if before:
+            return orelse in (k + '.T', k + '.transpose()') and body == k
+        return False
+
+    def guarded(call):
+        par = None
+        for n in ast.walk(fn):
+            for ch in ast.iter_child_nodes(n):
+                if ch is call:
+                    par = n
+        if isinstance(par, ast.Call) and isinstance(par.func, ast.Name) and par.func.id in helpers and len(par.args) == 3 \
+                and par.args[0] is call and [norm(x) for x in par.args[1:]] == ['p1', 'p2']:
+            h = helpers[par.func.id]
+            ps = [x.arg for x in h.args.args]
+            rets = [x for x in ast.walk(h) if isinstance(x, ast.Return)]
+            body = [x for x in h.body if not (isinstance(x, ast.Expr) and isinstance(x.value, ast.Constant))]
+            return len(ps) == 3 and len(rets) == 1 and len(body) == 1 and transposes_when_after(rets[0].value, ps[0], ps[1], ps[2])
+        return False
     for val, body, line in branches:
         if val not in KINDS:
             continue
-        chk.ob('R12.3', guard, ASSEMBLY, fname, 'triangle rule (%s12)' % val, line=line,
-               expected='the full coupling block is guaranteed to lie above the diagonal (p1 placed before p2), or both (p1,p2) and (p2,p1) blocks are added',
-               got='no ordering guard / swap / transposed block',
-               detail='the (p1,p2) block of %s is added at (p1.row_start, p2.col_start) and make_symmetric drops everything below the diagonal: with p2 listed before p1 the coupling is silently lost' % val)
+        kname = 'fkC%s12' % val
+        cs = [c for st in body for c in pyflow.calls_in(st) if pyflow.callee_name(c) == kname]
+        ok = len(cs) == 1 and guarded(cs[0])
+        chk.ob('R12.3', ok, ASSEMBLY, fname, 'triangle rule (%s12)' % val, line=line,
+               expected='the coupling block survives the upper-triangle selection for either order of the two panels: its value passes through `k.T if p1.row_start > p2.col_start else k`',
+               got='transposed when p1 lies after p2' if ok else 'no transposition conditional on the order of the panels',
+               detail='' if ok else 'the (p1,p2) block of %s is added at (p1.row_start, p2.col_start) and make_symmetric drops everything below the diagonal: with p2 listed before p1 the coupling is silently lost' % val,
+               sample='%s: coupling block transposed when p1.row_start > p2.col_start' % kname)
     r12_4(chk)
 
 
